@@ -2,9 +2,10 @@
    A case is a history of events (RPC call records with the caller's address, Go-API
    registrations) on a fresh Portmapper, with what the implementation did after each event:
    the reply bytes (None = handleCall returned an error, nothing is written), the registry,
-   and isLoopbackAddr(remoteAddr). *)
+   and whether a v2 SET from that address registers anything on a scratch Portmapper (the observable
+   form of isLoopbackAddr). *)
 From Coq Require Import List NArith ZArith Bool.
-From Verif Require Import Model.Portmap Corr.Common Corr.C27Bytes.
+From Verif Require Import Gen.Facts Model.Portmap Corr.Common Corr.C27Bytes.
 Import ListNotations.
 Open Scope N_scope.
 
@@ -68,7 +69,7 @@ Fixpoint walk_model (la : list N) (i : N) (reg : registry) (evs : list event) (o
   | e :: evs', o :: os' =>
       let '(reg', r) := step la reg e in
       let h := match e with Call _ d => option_map fst (decode_header d) | _ => None end in
-      let allow_ok := match e with Call c _ => Bool.eqb (is_loopback_addr c) (o_allow o) | _ => true end in
+      let allow_ok := match e with Call c _ => Bool.eqb (negb (v2_refused f_pm_v2_set_guarded c)) (o_allow o) | _ => true end in
       if option_eqb (reply_eqb h) r (o_reply o) && reg_eqb reg' (reg_of_obs (o_reg o)) && allow_ok
       then walk_model la (i + 1) reg' evs' os' else [(i, code_mismatch)]
   | [], [] => []
